@@ -174,6 +174,22 @@ CHECKS = {
              "XML file, JSON file, YAML file} x {convert, str, write_to_file}: output loads in the strict reader, equals the "
              "reference mapping, every dropped or overridden item is in the log, the source is untouched.",
         design="DESIGN.md C15"),
+    "C16": dict(
+        engine="input",
+        category="model_checking",
+        technique="bounded-exhaustive enumeration of reader inputs (all short strings, grammar trees, every single structural "
+                  "mutation of seed files, dictionary mutations) against an outcome invariant",
+        text="(a) all 66 430 strings of length <=5 (quick) / 597 871 of length <=6 (thorough) over {< > / a \" = space & [}, bare and "
+             "inside a valid odML frame; (b) 4 912 grammar documents: every odML / unknown / upper-case element under the root, every "
+             "pair of children of a Section and of a Property x text variants per slot (unparsable ids, dates, cardinalities, values, "
+             "dtypes), value x dtype x cardinality, duplicate names and ids, link/include combinations, XML attributes, PIs, comments, "
+             "CDATA, entities, namespaces, declarations, versions; (c) every single mutation (delete, duplicate, re-tag x10, swap, "
+             "move under every node, 8 texts, attribute) of every node of three seed files (2 163 inputs; pairs on one seed, "
+             "thorough); (d) 571 dictionary mutations through DictReader and as JSON/YAML text through ODMLReader; x strict/lenient x "
+             "string/file: outcome is a Document or ParserException (InvalidVersionException exactly for another odML version), "
+             "lenient never raises on well-formed current odML, strict-raises implies lenient-warns, untouched seed objects "
+             "survive, every returned Document satisfies the C03/C04 invariants.",
+        design="DESIGN.md C16"),
     "C18": dict(
         engine="schedule",
         category="model_checking",
